@@ -14,6 +14,7 @@ import (
 	"strconv"
 	"strings"
 	"sync"
+	"sync/atomic"
 	"time"
 
 	"github.com/logrange/logrange/api"
@@ -70,7 +71,11 @@ type Scenario struct {
 	Stream  string      `json:"stream"`
 }
 
-const deadline = 25 * time.Second
+const deadline = 15 * time.Second
+
+// scenarios that already ended with a verdict (other than the recorded classes); once there are several the
+// remaining scenarios are skipped: every missed wake-up costs a full deadline
+var badScenarios int32
 
 // ---------------------------------------------------------------- hook (schedule point in partition.Service.Write)
 
@@ -128,9 +133,13 @@ func gEvent(e Ev) string {
 	return fmt.Sprintf("{| e_ts := %s; e_msg := %s; e_flds := %s; e_keep := %s |}", GZ(e.Ts), GStr(e.Msg), gPairs(e.Flds), GBool(e.Keep))
 }
 
-func gEvents(evs []Ev) string {
+// gEvents renders events for the model of one pipe: e_keep is the verdict of that pipe's filter
+func gEvents(p *pipeRun, evs []Ev) string {
 	it := make([]string, len(evs))
 	for i, e := range evs {
+		if p.def.FKind == "" {
+			e.Keep = true
+		}
 		it[i] = gEvent(e)
 	}
 	return GList(it)
@@ -205,6 +214,22 @@ func readAll(srv *Server, from string) ([]DEv, error) {
 		nr := r.NextQueryRequest
 		req = &nr
 	}
+}
+
+// readDst reads a pipe's destination without the sentinel events of the harness's barrier partition (a pipe
+// with an empty source condition copies those too)
+func readDst(srv *Server, name string) ([]DEv, error) {
+	all, err := readAll(srv, "logrange.pipe="+name)
+	if err != nil {
+		return nil, err
+	}
+	var res []DEv
+	for _, e := range all {
+		if !hasSuffix(e.Flds, [][2]string{{"barrier", "b"}}) {
+			res = append(res, e)
+		}
+	}
+	return res, nil
 }
 
 func jrnl(srv *Server, src string) (journal.Journal, error) {
@@ -544,7 +569,7 @@ func (r *runner) run() error {
 				return err
 			}
 			r.syncDst()
-			d, err := readAll(r.srv, "logrange.pipe="+p.def.Name)
+			d, err := readDst(r.srv, p.def.Name)
 			if err != nil {
 				return err
 			}
@@ -726,7 +751,7 @@ func (r *runner) run() error {
 					if st.FlushFirst {
 						opn = "SWrite"
 					}
-					p.ops[s] = append(p.ops[s], GApp(opn, gEvents(evs)))
+					p.ops[s] = append(p.ops[s], GApp(opn, gEvents(p, evs)))
 					if len(bySrc[s]) > 1 || p.seen[s] {
 						p.nontriv = true
 					}
@@ -830,14 +855,14 @@ func (r *runner) run() error {
 				}
 				if p.deleted {
 					p.postDel = true
-					p.ops[s] = append(p.ops[s], GApp("SWrite", gEvents(append(append([]Ev{}, b1.Evs...), b2.Evs...))))
+					p.ops[s] = append(p.ops[s], GApp("SWrite", gEvents(p, append(append([]Ev{}, b1.Evs...), b2.Evs...))))
 					continue
 				}
 				if st.FlushFirst {
-					p.ops[s] = append(p.ops[s], GApp("SRace", gEvents(b1.Evs), gEvents(b2.Evs)))
+					p.ops[s] = append(p.ops[s], GApp("SRace", gEvents(p, b1.Evs), gEvents(p, b2.Evs)))
 					p.raceLost[s] = b1.Evs
 				} else {
-					p.ops[s] = append(p.ops[s], GApp("SRaceClamp", gEvents(b1.Evs), gEvents(b2.Evs)))
+					p.ops[s] = append(p.ops[s], GApp("SRaceClamp", gEvents(p, b1.Evs), gEvents(p, b2.Evs)))
 				}
 				p.seen[s] = true
 				p.nontriv = true
@@ -881,13 +906,17 @@ func (r *runner) run() error {
 				if p.deleted {
 					p.postDel = true
 				}
-				p.ops[s] = append(p.ops[s], GApp("SRearm", gEvents(b.Evs)))
+				p.ops[s] = append(p.ops[s], GApp("SRearm", gEvents(p, b.Evs)))
 				p.nontriv = true
 			}
 		default:
 			return fmt.Errorf("unknown step %q", st.Kind)
 		}
 		r.lastSettle = time.Now()
+		if r.viol != nil {
+			// the scenario has its verdict; later steps would only wait for deadlines
+			break
+		}
 	}
 	return nil
 }
@@ -985,7 +1014,7 @@ func (r *runner) finish() ([]Case, error) {
 		if !p.created {
 			continue
 		}
-		dst, err := readAll(r.srv, "logrange.pipe="+p.def.Name)
+		dst, err := readDst(r.srv, p.def.Name)
 		if err != nil {
 			return nil, err
 		}
@@ -997,9 +1026,6 @@ func (r *runner) finish() ([]Case, error) {
 				if hasSuffix(e.Flds, tg) {
 					found = s
 				}
-			}
-			if found < 0 && hasSuffix(e.Flds, [][2]string{{"barrier", "b"}}) {
-				continue
 			}
 			if found < 0 {
 				r.fail("pipe-unattributed-event", fmt.Sprintf("pipe %s: destination event %v carries no source's tags", p.def.Name, e))
@@ -1063,7 +1089,7 @@ func (r *runner) finish() ([]Case, error) {
 				ops = nil
 			}
 			cs := Case{
-				Coq:        GApp("KSrc", gPairs(tg), GNat(p.preFl[s]), gEvents(r.written[s][p.preFl[s]:p.pre[s]]), GList(ops), GList(obs)),
+				Coq:        GApp("KSrc", gPairs(tg), GNat(p.preFl[s]), gEvents(p, r.written[s][p.preFl[s]:p.pre[s]]), GList(ops), GList(obs)),
 				Replay:     sc,
 				NonTrivial: p.nontriv && p.def.Match[s] && len(ops) > 0,
 				Oracle:     r.viol,
@@ -1391,6 +1417,9 @@ func corpus() []*Scenario {
 const rule = "end-to-end scenarios on an in-process server: 1-4 source partitions (unique sid tag), 1-3 pipes over four source-condition shapes, waves of 1-3 batches of 1-13 events per source (chunk size 300-2000 bytes in half of the scenarios so that batches straddle roll-overs), pipe creation before/after existing history, a second pipe created mid-history, DELETE PIPE with a control pipe, clean restart, two first writers with inverted notifications (schedule hook), concurrent writers on known sources, worker idle time-out with a write shortly before it; one case per (pipe, source); non-trivial iff the source matches the pipe and either a notification reached the pipe while it already knew the source (worker charged), or a restart/delete/race/re-arm step was taken; distinct by scenario/pipe/source"
 
 func runScenario(sc *Scenario) ([]Case, error) {
+	if atomic.LoadInt32(&badScenarios) >= 6 {
+		return nil, nil
+	}
 	r := &runner{sc: sc}
 	defer func() {
 		if r.srv != nil {
@@ -1403,7 +1432,18 @@ func runScenario(sc *Scenario) ([]Case, error) {
 	if err := r.run(); err != nil {
 		return nil, err
 	}
-	return r.finish()
+	if r.viol != nil {
+		atomic.AddInt32(&badScenarios, 1)
+	}
+	cases, err := r.finish()
+	if err == nil && r.viol == nil && len(cases) > 0 && cases[0].Oracle != nil {
+		switch cases[0].Oracle.Class {
+		case "pipe-filter-not-applied", "pipe-first-notification-reorder", "pipe-copied-unflushed-history":
+		default:
+			atomic.AddInt32(&badScenarios, 1)
+		}
+	}
+	return cases, err
 }
 
 func main() {
